@@ -132,6 +132,24 @@ def run(ctx):
     check_unique("the break sub-commands", [(n, c) for n, c, m in sub_break])
     ctx.instance(len(top) + len(sub_step) + len(sub_break), {"entries": len(top) + len(sub_step) + len(sub_break), "accepted spellings": nstr})
     # a misspelling that is also an accepted spelling of another command can never trigger its suggestion; harmless, not checked
+    # how a typed name is compared with the table: ASCII case-insensitive equality, and nothing else. Unicode case mapping
+    # (to_lowercase) both loses table entries that contain capitals (`^C`) and admits look-alikes (KELVIN SIGN -> k).
+    reach_p = ctx.cg.reachable([READ_FROM])
+    casers = sorted(n for n in reach_p if re.search(r"(str|char|String)>?::(to_lowercase|to_uppercase)$|char::methods::<impl char>::to_(lower|upper)case$", n))
+    cmpf = [n for n in reach_p if n in prog.fns and "core::str::<impl str>::eq_ignore_ascii_case" in ctx.cg.callees(n)]
+    ctx.instance(1)
+    ok = not casers and len(cmpf) >= 1
+    ctx.oblig(ok, {"name comparison": [short(n) for n in cmpf], "unicode case mapping on the parser path": casers}, "eq_ignore_ascii_case only")
+    if not ok:
+        ctx.violation("name-compare", prog.fns[cmpf[0]].file_line() if cmpf else "-",
+                      "command names are not compared with str::eq_ignore_ascii_case alone (case-mapping callees on the parser path: %s; comparing functions: %s): "
+                      "documented aliases containing capitals stop matching and non-ASCII look-alikes start matching" % (casers or "none", [short(n) for n in cmpf] or "none"))
+    for n in cmpf:
+        f_ = prog.fns[n]
+        other = [short(c) for b, t, c in f_.calls() if c and (c.endswith("PartialEq for str>::eq") or c.endswith("[T]>::contains") or "PartialEq<" in c and "str" in c)]
+        ctx.oblig(not other, None)
+        if other:
+            ctx.violation("name-compare-exact|%s" % short(n), f_.file_line(), "`%s` also compares names case-sensitively (%s)" % (short(n), other))
     ctx.finish_rule()
 
     # ------------------------------------------------------------------ R4
